@@ -193,7 +193,7 @@ type frame struct {
 	fromDef  bool                // frame runs a deferred call
 	unwind   bool                // this frame is running its defers because of a panic
 	genDepth int
-	inPanicD bool // deferred call started while panicking (recover() is live here)
+	inPanicD bool                                // deferred call started while panicking (recover() is live here)
 	loopSnap map[*ssa.BasicBlock]map[string]*Sym // constant-valued cells when the loop header was first entered
 	loopInv  map[*ssa.BasicBlock][]loopInvariant // candidate invariants assumed for the generalised iteration
 }
